@@ -354,6 +354,18 @@ fn e2e_case(prop: &str, idx: u64, tmproot: &std::path::Path) -> CaseRec {
 /// end-to-end: `keep_crlf` from the command line (--keep-output-crlf / --no-keep-output-crlf), the inline
 /// configuration, the document defaults and the format default (Markdown: CR LF translated, Cram: kept).
 /// The command writes `a<CR><LF>`; the observation is the recorded line in the JSON of a failing expectation.
+fn want_keep_of(cli: u8, inline: u8, defaults: u8, cram: bool) -> bool {
+    match (cli, inline, defaults) {
+        (1, _, _) => true,
+        (2, _, _) => false,
+        (0, 1, _) => true,
+        (0, 2, _) => false,
+        (0, 0, 1) => true,
+        (0, 0, 2) => false,
+        _ => cram,
+    }
+}
+
 fn e2e_crlf_case(prop: &str, idx: u64, tmproot: &std::path::Path) -> CaseRec {
     let mut r = idx;
     let mut take = |n: u64| {
@@ -408,7 +420,9 @@ fn e2e_crlf_case(prop: &str, idx: u64, tmproot: &std::path::Path) -> CaseRec {
             0
         }
         2 if !cram => {
-            std::fs::write(&main, format!("---\nappend: [{}]\n---\n\n{trivial}", p.file_name().unwrap().to_string_lossy())).unwrap();
+            // the main document has defaults of its own, the opposite of what the observed test case must see: they are
+            // not a layer of the appended document's test cases
+            std::fs::write(&main, format!("---\nappend: [{}]\ndefaults: {{keep_crlf: {}}}\n---\n\n{trivial}", p.file_name().unwrap().to_string_lossy(), !want_keep_of(cli, inline, defaults, cram))).unwrap();
             cmd.arg(&main);
             1
         }
